@@ -581,6 +581,20 @@ def w7(F, rep):
         ds = [flow.describe(fb, t["args"][0]) for bb, t in fb.calls() if strip_generics(callee_def(t)).endswith("::" + callee)]
         ok = len(ds) == 2 and re.match("^" + SH % 0 + "$", ds[0]) is not None and re.match("^" + SH % 1 + "$", ds[1]) is not None
         rep.add("W7", "shared-header-expansion:%s" % fn.split("::")[-1], ok, "%s:%s" % (fb.file, fb.line), "%s(%s)" % (callee, [d[:140] for d in ds]))
+        # ... and the expanded lengths reach the code construction untouched: nothing borrows them mutably on the way
+        muts = []
+        for bb, t in fb.calls():
+            cn = strip_generics(callee_def(t))
+            if cn.endswith("::" + callee) or not t["args"]:
+                continue
+            a0 = t["args"][0]
+            p0 = op_place(a0)
+            if p0 is None or not fb.local_ty(p0["l"]).startswith("&mut "):
+                continue
+            if re.search(r"get_literal_distance_lengths\(.*\)\.[01]", flow.describe(fb, a0)):
+                muts.append("%s at %s" % (cn.split("::")[-1], fb.where(bb)))
+        rep.add("W7", "expanded-lengths-not-modified:%s" % fn.split("::")[-1], not muts, "%s:%s" % (fb.file, fb.line),
+                "mutable uses of the expanded code lengths before the codes are built: %s" % muts)
 
 
 def run(ctx, rep):
@@ -599,3 +613,12 @@ def run(ctx, rep):
     w5(F, rep)
     w6(F, rep)
     w7(F, rep)
+    # W8: what the parser captures as padding are exactly the bits left in the current byte, taken with the bit reader's own
+    # read primitive (same rule as C03/T5 padding-count; a capture computed by hand from the reader's fields is not accepted)
+    from . import c03
+    from ..core import Report
+    tmp = Report("tmp", "quick")
+    c03.t5b(F, tmp)
+    for o in tmp.obs:
+        o.rule = "W8"
+        rep.obs.append(o)
